@@ -264,6 +264,38 @@ def check_helper_independence(ctx):
                      stratum="helper-independence", case={"helper": want})
 
 
+def check_bool_spellings(ctx):
+    """bool_value(b) for b that is true / false without being the singleton True / False (an int bit, an IntEnum member,
+    an object with __index__ and __bool__ as array libraries have them)"""
+    import enum
+
+    from hugr import val
+
+    class Bit:
+        def __init__(self, b):
+            self.b = b
+
+        def __bool__(self):
+            return bool(self.b)
+
+        def __index__(self):
+            return int(self.b)
+
+        __int__ = __index__
+
+    E = enum.IntEnum("E", {"zero": 0, "one": 1})
+    for b, want in ((1, 1), (0, 0), (E.one, 1), (E.zero, 0), (Bit(1), 1), (Bit(0), 0), (5 & 1, 1), (4 & 1, 0)):
+        ctx.count("monitor:bool-spellings")
+        try:
+            got = dump(val.bool_value(b))["tag"]
+        except Exception as e:  # noqa: BLE001  (refusing something that is no bool is fine)
+            ctx.count("observed:bool-spelling-refused")
+            continue
+        if got != want:
+            ctx.disc(None, "helper-tag", f"bool_value({type(b).__name__} {int(b)})", want, got,
+                     stratum="bool-spellings", case={"b": int(b)})
+
+
 def check_func_root(ctx, case):
     """A function value whose body is rooted at a TailLoop (the dataflow parent whose outer signature differs from
     its body's): "a function-valued constant has the signature of its body"."""
@@ -384,6 +416,7 @@ def run(ctx):
         selftest(ctx)
         ctx.guard("int-edge", None, check_int_edges, ctx)
         ctx.case("int-edge", "edges", True)
+        ctx.guard("bool-spellings", None, check_bool_spellings, ctx)
         ctx.guard("helper-independence", None, check_helper_independence, ctx)
         ctx.case("helper-independence", "helpers", True)
     from vf.gen.prog import gen_program
@@ -444,6 +477,8 @@ def replay(ctx, rec):
         check_func_root(ctx, rec["case"])
     elif rec.get("stratum") == "int-edge":
         check_int_edges(ctx)
+    elif rec.get("stratum") == "bool-spellings":
+        check_bool_spellings(ctx)
     elif rec.get("stratum") == "helper-independence":
         check_helper_independence(ctx)
     elif rec.get("stratum") == "const-replaced":
